@@ -16,7 +16,7 @@ LEVEL_TEXT = ("Theorems in Coq (Props/C15.v): for every sequence of any length o
               "eccKeyAgreementGM length logic, certificateRequestMsgGM.unmarshal and readHandshake reassembly are total on all byte strings; "
               "byte-level models (every index/slice a checked access) of the handshake_messages.go parsers - clientHelloMsg.unmarshal with its extension loop, serverHelloMsg, certificateMsg, "
               "serverKeyExchangeMsg, clientKeyExchangeMsg, certificateRequestMsg, certificateVerifyMsg, finishedMsg, newSessionTicketMsg, certificateStatusMsg, nextProtoMsg - never Panic or Hang on any byte string, "
-              "and a ClientHello / ServerHello is accepted iff it has the declarative shape ch_shape / sh_shape (extension blocks: ext_block_ok / sh_ext_block_ok), else return false. "
+              "and a ClientHello / ServerHello is accepted iff it has the declarative shape ch_shape / sh_shape (extension blocks: ext_block_ok / sh_ext_block_ok), else return false; marshal() of the same messages is modelled too and unmarshal(marshal m) = m is proved for every message value inside the field widths (so marshal is injective, and a byte transcript is read back into exactly the values that were marshalled). "
               "(The panic of the TLS client on an RSA key exchange against a non-RSA certificate, found by this check, was repaired in /repo 4334fea; its scripts stay in corpus/c15.) "
               "The same scripts (about 45 000 quick) are played by a scripted peer against real endpoints under recover() and a deadline and outcome classes compared.")
 LEVEL_NOTE = ("Trusted: Coq kernel, extraction (ExtrOcamlBasic only), the hand-written models, the Go driver's abstraction of the bytes it sends into model tokens "
